@@ -1,6 +1,6 @@
 //verif:package github.com/kstenerud/go-concise-encoding/internal/verifh/c18
 //verif:bounds *big.Int of 1..3 symbolic words with sign through the CBE encoder and the rules validator; apd.Decimal with a symbolic 1..2 word coefficient, sign and exponent through the CBE encoder
-//verif:assume values reachable only through the marshaler's reflection walk are outside reach: the encoders' event entry points are driven directly with pointer-held big numbers
+//verif:assume in these two entries the encoders' event entry points are driven directly with pointer-held big numbers (marshal.go runs the real marshalers)
 package c18
 
 import (
